@@ -148,8 +148,17 @@ func m11Run(dir string, cs m11Case) [][2]string {
 			errText, _ = sp.State.Bs["error"].(string)
 		}
 		e.s.crew.RUnlock()
+		// the relay ticks once; every further tick was the spinner's: its script ran and was stopped
+		spinnerRan := atomic.LoadInt64(&ctx.ticks) > int64(cs.Hops-1)
+		// the record in the store must be the machine in memory, whatever became of the request
+		stored, serr := e.stored()
+		if mem := e.memory(); serr == nil && mem != stored {
+			out = append(out, [2]string{"memory-differs-from-store-after-a-timeout", fmt.Sprintf("%+v: memory [%s], store [%s]", cs, mem, stored)})
+		}
 		switch {
+		case node == "start" && !spinnerRan:
 		case node == "start":
+			out = append(out, [2]string{"timeout-not-routed-like-an-action-error", fmt.Sprintf("%+v: the spinning machine's script ran (%d ticks) and was stopped, but the machine is still at its start node: the failure was not routed anywhere", cs, atomic.LoadInt64(&ctx.ticks))})
 		case node == "error" && strings.Contains(errText, "timeout"):
 		default:
 			out = append(out, [2]string{"failure-is-not-the-timeout-error", fmt.Sprintf("%+v: the spinning machine is at %q with error %q", cs, node, errText)})
@@ -184,7 +193,7 @@ func C11mcrew(c *vh.Ctx) {
 		}
 		return
 	}
-	c.Rule("(mcrew host) a machine whose action loops forever (ticking the harness through the request's context) is sent a message directly, or by a relay machine that emits it while handling the request's message (the service processes emitted messages on goroutines of its own); the request's context has ended before the request or ends at tick k = 1..6: no script makes more than 3*10^6 ticks after the context has ended, the service comes to rest, and the looping machine ends at the error node with the timeout error (or was never reached).")
+	c.Rule("(mcrew host) a machine whose action loops forever (ticking the harness through the request's context) is sent a message directly, or by a relay machine that emits it while handling the request's message (the service processes emitted messages on goroutines of its own); the request's context has ended before the request or ends at tick k = 1..6: no script makes more than 3*10^6 ticks after the context has ended, the service comes to rest, and the looping machine - if its script ran at all - ends at the error node with the timeout error, in memory and in the store.")
 	var idx uint64
 	for hops := 1; hops <= 2; hops++ {
 		for k := 0; k <= 6; k++ {
